@@ -250,6 +250,16 @@ theorem foldl_backlink_entry (mt : Metric) (st : Store S) (id : Nat) :
   | nil => intro g; rfl
   | cons n rest ih => intro g; simp only [List.foldl_cons]; rw [ih, backlink_entry]
 
+theorem linkNew_entry (mt : Metric) (st : Store S) (g : Graph) (id : Nat) (nids : List Nat) :
+    (linkNew mt st g id nids).entry = g.entry := by
+  unfold linkNew
+  rw [foldl_backlink_entry, setNbrs_entry]
+
+theorem fixEntry_entry (mt : Metric) (st : Store S) (g : Graph) (entry id : Nat) :
+    (fixEntry mt st g entry id).entry = g.entry := by
+  unfold fixEntry
+  split <;> rfl
+
 theorem addVector_entry (mt : Metric) (st : Store S) (g : Graph) (id : Nat)
     (h : ∀ e, g.entry = some e → (vecAt st e).isSome) :
     ∀ e, (addVector mt st g id).entry = some e → (vecAt st e).isSome := by
@@ -266,12 +276,8 @@ theorem addVector_entry (mt : Metric) (st : Store S) (g : Graph) (id : Nat)
       subst he
       simp [hv]
     | some entry =>
-      simp only [hg] at he
-      split at he
-      · simp only [setNbrs_entry, foldl_backlink_entry] at he
-        exact h e he
-      · simp only [setNbrs_entry, foldl_backlink_entry] at he
-        exact h e he
+      simp only [hg, fixEntry_entry, linkNew_entry] at he
+      exact h e (by rw [hg]; exact he)
 
 theorem buildGraph_entry (mt : Metric) (st : Store S) (m efc : Nat) :
     ∀ e, (buildGraph mt st m efc).entry = some e → (vecAt st e).isSome := by
@@ -287,6 +293,489 @@ theorem buildGraph_entry (mt : Metric) (st : Store S) (m efc : Nat) :
       simp only [List.foldl_cons]
       exact ih _ (addVector_entry mt st g i h)
   exact this ids _ (by intro e he; simp [Graph.new] at he)
+
+/-! ## search on a graph whose entry point is adjacent to every other node -/
+
+/-- node `i` with its similarity to the query -/
+def scOf (mt : Metric) (st : Store S) (q : List S) (i : Nat) : Scored S := ⟨i, simOr mt st q i⟩
+
+theorem simOpt_eq_simOr {mt : Metric} {st : Store S} {q : List S} {id : Nat}
+    (h : (vecAt st id).isSome) : simOpt mt st q id = some (simOr mt st q id) := by
+  unfold simOpt simOr
+  cases hv : vecAt st id with
+  | none => simp [hv] at h
+  | some v => simp
+
+theorem visitNbr_noop (mt : Metric) (st : Store S) (q : List S) (ef : Nat) (worst : S)
+    (s : SState S) (nb : Nat) (h : nb ∈ s.visited) : visitNbr mt st q ef worst s nb = s := by
+  unfold visitNbr
+  simp [h]
+
+theorem foldl_visitNbr_noop (mt : Metric) (st : Store S) (q : List S) (ef : Nat) (worst : S) :
+    ∀ (L : List Nat) (s : SState S), (∀ nb ∈ L, nb ∈ s.visited) →
+      L.foldl (visitNbr mt st q ef worst) s = s := by
+  intro L
+  induction L with
+  | nil => intro s _; rfl
+  | cons nb rest ih =>
+    intro s h
+    simp only [List.foldl_cons]
+    rw [visitNbr_noop mt st q ef worst s nb (h nb (by simp))]
+    exact ih s (fun x hx => h x (by simp [hx]))
+
+theorem visitNbr_fresh (mt : Metric) (st : Store S) (q : List S) (ef : Nat) (worst : S)
+    (s : SState S) (nb : Nat) (hnv : nb ∉ s.visited) (hv : (vecAt st nb).isSome)
+    (hlen : s.results.length < ef) :
+    visitNbr mt st q ef worst s nb =
+      { visited := nb :: s.visited, cands := scOf mt st q nb :: s.cands,
+        results := scOf mt st q nb :: s.results } := by
+  unfold visitNbr
+  have hgt : ¬ (s.results.length + 1 > ef) := by omega
+  simp [hnv, simOpt_eq_simOr hv, hlen, hgt, scOf]
+
+/-- visiting a list of fresh nodes that all fit into the result heap records all of them -/
+theorem foldl_visitNbr_fresh (mt : Metric) (st : Store S) (q : List S) (ef : Nat) (worst : S) :
+    ∀ (L : List Nat) (s : SState S), L.Nodup → (∀ nb ∈ L, nb ∉ s.visited) →
+      (∀ nb ∈ L, (vecAt st nb).isSome) → s.results.length + L.length ≤ ef →
+      L.foldl (visitNbr mt st q ef worst) s =
+        { visited := L.reverse ++ s.visited, cands := L.reverse.map (scOf mt st q) ++ s.cands,
+          results := L.reverse.map (scOf mt st q) ++ s.results } := by
+  intro L
+  induction L with
+  | nil => intro s _ _ _ _; simp
+  | cons nb rest ih =>
+    intro s hnd hfresh hvec hlen
+    rw [List.nodup_cons] at hnd
+    simp only [List.foldl_cons, List.length_cons] at hlen ⊢
+    rw [visitNbr_fresh mt st q ef worst s nb (hfresh nb (by simp)) (hvec nb (by simp)) (by omega)]
+    rw [ih _ hnd.2]
+    · simp
+    · intro x hx
+      simp only [List.mem_cons, not_or]
+      refine ⟨?_, hfresh x (by simp [hx])⟩
+      intro h; subst h; exact hnd.1 hx
+    · intro x hx; exact hvec x (by simp [hx])
+    · simp only [List.length_cons]; omega
+
+/-- once every neighbour of every pending candidate has been visited, the loop returns the
+current results -/
+theorem searchLoop_stable (mt : Metric) (st : Store S) (g : Graph) (q : List S) (ef : Nat) :
+    ∀ (fuel : Nat) (s : SState S), (∀ c ∈ s.cands, ∀ nb ∈ g.nbrsOf c.id, nb ∈ s.visited) →
+      searchLoop mt st g q ef fuel s = s.results := by
+  intro fuel
+  induction fuel with
+  | zero => intro s _; rfl
+  | succ n ih =>
+    intro s h
+    unfold searchLoop
+    split
+    · rfl
+    · rename_i best rest hpop
+      obtain ⟨hb, hrest⟩ := popMax_mem _ hpop
+      simp only
+      split <;>
+      · split
+        · rfl
+        · rw [foldl_visitNbr_noop mt st q ef _ _ _ (by simpa using h best hb)]
+          exact ih _ (fun c hc => h c (hrest c hc))
+
+theorem popMax_singleton {α : Type} (lt : α → α → Bool) (x : α) : popMax lt [x] = some (x, []) := by
+  simp [popMax]
+
+/-- **star lemma**: if the entry point `e` is adjacent to the distinct nodes `L`, all nodes
+have vectors, the neighbourhoods stay inside `e :: L`, and the beam `ef` can hold all of them,
+`search_internal` returns every node with its similarity -/
+theorem searchInternal_star (mt : Metric) (st : Store S) (g : Graph) (q : List S) (ef : Nat)
+    (e : Nat) (L : List Nat) (hentry : g.entry = some e) (hL : g.nbrsOf e = L) (hnd : L.Nodup)
+    (heL : e ∉ L) (hvec : ∀ x ∈ L, (vecAt st x).isSome)
+    (hclosed : ∀ x ∈ L, ∀ nb ∈ g.nbrsOf x, nb ∈ e :: L) (hef : L.length + 1 ≤ ef) :
+    searchInternal mt st g q ef = L.reverse.map (scOf mt st q) ++ [scOf mt st q e] := by
+  unfold searchInternal
+  simp only [hentry]
+  have hfuel : g.nbrs.length + 2 = (g.nbrs.length + 1) + 1 := rfl
+  rw [hfuel]
+  unfold searchLoop
+  simp only [popMax_singleton, worstOf]
+  split
+  · -- the loop stops at once: only possible when the beam is 1, i.e. `L = []`
+    rename_i hc
+    simp only [Bool.and_eq_true, decide_eq_true_eq, List.length_cons, List.length_nil] at hc
+    have : L = [] := by
+      cases L with
+      | nil => rfl
+      | cons a b => simp at hef; omega
+    subst this
+    simp [scOf]
+  · rw [hL, foldl_visitNbr_fresh mt st q ef _ L _ hnd
+      (by intro nb hnb; simp only [List.mem_singleton]; intro h; subst h; exact heL hnb) hvec
+      (by simp only [List.length_cons, List.length_nil]; omega)]
+    rw [searchLoop_stable]
+    · simp [scOf]
+    · intro c hc nb hnb
+      simp only [List.append_nil, List.mem_map, List.mem_reverse] at hc
+      obtain ⟨x, hx, rfl⟩ := hc
+      have := hclosed x hx nb (by simpa [scOf] using hnb)
+      simp only [List.mem_cons] at this
+      simp only [List.mem_append, List.mem_reverse, List.mem_singleton]
+      rcases this with h | h
+      · exact Or.inr h
+      · exact Or.inl h
+
+/-! ## construction: up to `m + 1` nodes the graph is complete -/
+
+theorem vecAt_lt {st : Store S} {a : Nat} (h : (vecAt st a).isSome) : a < st.length := by
+  unfold vecAt at h
+  cases hg : st[a]? with
+  | none => simp [hg] at h
+  | some o => exact (List.getElem?_eq_some_iff.mp hg).1
+
+theorem setNbrs_len (g : Graph) (id : Nat) (l : List Nat) :
+    (g.setNbrs id l).nbrs.length = g.nbrs.length := by
+  simp [Graph.setNbrs]
+
+theorem nbrsOf_setNbrs_self (g : Graph) (id : Nat) (l : List Nat) (h : id < g.nbrs.length) :
+    (g.setNbrs id l).nbrsOf id = l := by
+  simp [Graph.setNbrs, Graph.nbrsOf, List.getD_eq_getElem?_getD, h]
+
+theorem nbrsOf_setNbrs_ne (g : Graph) (id a : Nat) (l : List Nat) (h : a ≠ id) :
+    (g.setNbrs id l).nbrsOf a = g.nbrsOf a := by
+  have : ¬ id = a := fun e => h e.symm
+  simp [Graph.setNbrs, Graph.nbrsOf, List.getD_eq_getElem?_getD, this]
+
+theorem pruneList_perm (mt : Metric) (st : Store S) (m t : Nat) (l : List Nat) (h : l.length ≤ m) :
+    (pruneList mt st m t l).Perm l := by
+  unfold pruneList
+  rw [List.take_of_length_le (by rw [length_isort]; exact h)]
+  exact isort_perm_self _ _
+
+theorem backlink_len (mt : Metric) (st : Store S) (id : Nat) (g : Graph) (n : Nat) :
+    (backlink mt st id g n).nbrs.length = g.nbrs.length := by
+  unfold backlink
+  simp only
+  split
+  · rfl
+  · exact setNbrs_len _ _ _
+
+theorem backlink_m (mt : Metric) (st : Store S) (id : Nat) (g : Graph) (n : Nat) :
+    (backlink mt st id g n).m = g.m := by
+  unfold backlink
+  simp only
+  split <;> rfl
+
+theorem backlink_efc (mt : Metric) (st : Store S) (id : Nat) (g : Graph) (n : Nat) :
+    (backlink mt st id g n).efc = g.efc := by
+  unfold backlink
+  simp only
+  split <;> rfl
+
+theorem backlink_ne (mt : Metric) (st : Store S) (id : Nat) (g : Graph) (n a : Nat) (h : a ≠ n) :
+    (backlink mt st id g n).nbrsOf a = g.nbrsOf a := by
+  unfold backlink
+  simp only
+  split
+  · rfl
+  · exact nbrsOf_setNbrs_ne _ _ _ _ h
+
+theorem backlink_self (mt : Metric) (st : Store S) (id : Nat) (g : Graph) (n : Nat)
+    (hn : n < g.nbrs.length) (hc : (g.nbrsOf n).contains id = false) :
+    (backlink mt st id g n).nbrsOf n = pruneList mt st g.m n (g.nbrsOf n ++ [id]) := by
+  unfold backlink
+  simp only [hc]
+  exact nbrsOf_setNbrs_self _ _ _ hn
+
+/-- the back-link loop over distinct nodes touches exactly those nodes -/
+theorem foldl_backlink (mt : Metric) (st : Store S) (id : Nat) :
+    ∀ (N : List Nat) (g : Graph), N.Nodup → (∀ n ∈ N, n < g.nbrs.length) →
+      (∀ n ∈ N, (g.nbrsOf n).contains id = false) →
+      (N.foldl (backlink mt st id) g).nbrs.length = g.nbrs.length ∧
+      (N.foldl (backlink mt st id) g).m = g.m ∧
+      (N.foldl (backlink mt st id) g).efc = g.efc ∧
+      (∀ a, a ∉ N → (N.foldl (backlink mt st id) g).nbrsOf a = g.nbrsOf a) ∧
+      (∀ n ∈ N, (N.foldl (backlink mt st id) g).nbrsOf n = pruneList mt st g.m n (g.nbrsOf n ++ [id])) := by
+  intro N
+  induction N with
+  | nil => intro g _ _ _; simp
+  | cons n rest ih =>
+    intro g hnd hlt hc
+    rw [List.nodup_cons] at hnd
+    simp only [List.foldl_cons]
+    have hrest := ih (backlink mt st id g n) hnd.2
+      (by intro x hx; rw [backlink_len]; exact hlt x (by simp [hx]))
+      (by
+        intro x hx
+        have hne : x ≠ n := by intro e; subst e; exact hnd.1 hx
+        rw [backlink_ne mt st id g n x hne]
+        exact hc x (by simp [hx]))
+    obtain ⟨h1, h2, h3, h4, h5⟩ := hrest
+    refine ⟨by rw [h1, backlink_len], by rw [h2, backlink_m], by rw [h3, backlink_efc], ?_, ?_⟩
+    · intro a ha
+      simp only [List.mem_cons, not_or] at ha
+      rw [h4 a ha.2, backlink_ne mt st id g n a ha.1]
+    · intro x hx
+      rcases List.mem_cons.mp hx with hxn | hx'
+      · subst hxn
+        rw [h4 x hnd.1, backlink_self mt st id g x (hlt x (by simp)) (hc x (by simp))]
+      · have hne : x ≠ n := fun e => hnd.1 (e ▸ hx')
+        rw [h5 x hx', backlink_m, backlink_ne mt st id g n x hne]
+
+/-- invariant of the construction while at most `m + 1` nodes have been inserted: the nodes
+inserted so far (`P`, in insertion order) form a complete graph -/
+structure GInv (st : Store S) (m efc : Nat) (g : Graph) (P : List Nat) : Prop where
+  len : g.nbrs.length = st.length
+  hm : g.m = m
+  hefc : g.efc = efc
+  entry : g.entry = P.head?
+  nodup : P.Nodup
+  vec : ∀ a ∈ P, (vecAt st a).isSome
+  adj : ∀ a ∈ P, (g.nbrsOf a).Perm (P.erase a)
+  empty : ∀ a, a ∉ P → g.nbrsOf a = []
+
+theorem GInv.new (st : Store S) (m efc : Nat) :
+    GInv st (max m 1) (max efc 1) (Graph.new st.length m efc) [] where
+  len := by simp [Graph.new]
+  hm := rfl
+  hefc := rfl
+  entry := rfl
+  nodup := List.nodup_nil
+  vec := by intro a h; simp at h
+  adj := by intro a h; simp at h
+  empty := by
+    intro a _
+    simp only [Graph.new, Graph.nbrsOf, List.getD_eq_getElem?_getD]
+    cases h : (List.replicate st.length ([] : List Nat))[a]? with
+    | none => rfl
+    | some l =>
+      have := List.getElem?_eq_some_iff.mp h
+      obtain ⟨_, h2⟩ := this
+      simp at h2
+      simp [← h2]
+
+/-- what `search_internal` returns on a complete graph -/
+theorem searchInternal_complete (mt : Metric) (st : Store S) (m efc : Nat) (g : Graph)
+    (e : Nat) (P' : List Nat) (inv : GInv st m efc g (e :: P')) (q : List S) (ef : Nat)
+    (hef : (e :: P').length ≤ ef) :
+    (searchInternal mt st g q ef).Perm ((e :: P').map (scOf mt st q)) := by
+  have hnd := inv.nodup
+  rw [List.nodup_cons] at hnd
+  have hadj := inv.adj e (by simp)
+  simp only [List.erase_cons_head] at hadj
+  have hLnd : (g.nbrsOf e).Nodup := hadj.nodup_iff.mpr hnd.2
+  have heL : e ∉ g.nbrsOf e := fun h => hnd.1 (hadj.mem_iff.mp h)
+  have hstar := searchInternal_star mt st g q ef e (g.nbrsOf e) (by rw [inv.entry]; rfl) rfl hLnd heL
+    (by intro x hx; exact inv.vec x (by simp [hadj.mem_iff.mp hx]))
+    (by
+      intro x hx nb hnb
+      have hxP : x ∈ e :: P' := by simp [hadj.mem_iff.mp hx]
+      have h1 := (inv.adj x hxP).mem_iff.mp hnb
+      have h2 : nb ∈ e :: P' := List.mem_of_mem_erase h1
+      rcases List.mem_cons.mp h2 with h | h
+      · simp [h]
+      · simp [hadj.mem_iff.mpr h])
+    (by rw [hadj.length_eq]; simpa using hef)
+  rw [hstar]
+  have h1 : ((g.nbrsOf e).reverse.map (scOf mt st q) ++ [scOf mt st q e]).Perm
+      (scOf mt st q e :: (g.nbrsOf e).map (scOf mt st q)) := by
+    refine List.perm_append_comm.trans ?_
+    simp only [List.singleton_append]
+    exact List.Perm.cons _ ((List.reverse_perm _).map _)
+  refine h1.trans ?_
+  simp only [List.map_cons]
+  exact List.Perm.cons _ (hadj.map _)
+
+theorem erase_append_of_mem {a : Nat} {P : List Nat} (x : Nat) (h : a ∈ P) :
+    (P ++ [x]).erase a = P.erase a ++ [x] := by
+  rw [List.erase_append_left _ h]
+
+theorem erase_append_of_not_mem {P : List Nat} (x : Nat) (h : x ∉ P) :
+    (P ++ [x]).erase x = P := by
+  rw [List.erase_append_right _ h]
+  simp
+
+/-- neighbour selection on a complete graph of at most `m` nodes returns all of them -/
+theorem selectNeighbors_complete (mt : Metric) (st : Store S) (m efc : Nat) (g : Graph)
+    (e : Nat) (P' : List Nat) (inv : GInv st m efc g (e :: P')) (x : Nat) (v : List S)
+    (hx : x ∉ e :: P') (hlen : (e :: P').length ≤ m) :
+    (selectNeighbors mt st g x v).Perm (e :: P') := by
+  unfold selectNeighbors
+  simp only
+  have hperm := searchInternal_complete mt st m efc g e P' inv v (max g.efc (g.m * 2))
+    (by rw [inv.hm]; omega)
+  have hfilter : (searchInternal mt st g v (max g.efc (g.m * 2))).filter (fun c => c.id != x) =
+      searchInternal mt st g v (max g.efc (g.m * 2)) := by
+    rw [List.filter_eq_self]
+    intro c hc
+    have := hperm.mem_iff.mp hc
+    rw [List.mem_map] at this
+    obtain ⟨i, hi, rfl⟩ := this
+    simp only [scOf, bne_iff_ne, ne_eq]
+    intro h; subst h; exact hx hi
+  rw [hfilter, List.take_of_length_le (by rw [length_isort, hperm.length_eq, inv.hm]; simpa using hlen)]
+  have h2 := ((isort_perm_self Scored.gt _).trans hperm).map (·.id)
+  refine h2.trans ?_
+  simp [List.map_map, scOf, Function.comp_def]
+
+/-- **insertion step**: adding a node with a vector to a complete graph of at most `m`
+nodes gives the complete graph on one more node (no list is ever pruned) -/
+theorem addVector_inv (mt : Metric) (st : Store S) (m efc : Nat) (g : Graph) (P : List Nat)
+    (inv : GInv st m efc g P) (x : Nat) (hx : x ∉ P) (hv : (vecAt st x).isSome)
+    (hlen : P.length ≤ m) : GInv st m efc (addVector mt st g x) (P ++ [x]) := by
+  have hxlt : x < g.nbrs.length := by rw [inv.len]; exact vecAt_lt hv
+  cases hvx : vecAt st x with
+  | none => simp [hvx] at hv
+  | some v =>
+    unfold addVector
+    simp only [hvx]
+    cases P with
+    | nil =>
+      have he : g.entry = none := by rw [inv.entry]; rfl
+      simp only [he]
+      exact {
+        len := inv.len, hm := inv.hm, hefc := inv.hefc, entry := rfl
+        nodup := by simp
+        vec := by intro a ha; simp at ha; subst ha; exact hv
+        adj := by
+          intro a ha
+          simp only [List.nil_append, List.mem_singleton] at ha
+          subst ha
+          have : g.nbrsOf a = [] := inv.empty a (by simp)
+          have h0 : Graph.nbrsOf { g with entry := some a } a = g.nbrsOf a := rfl
+          rw [h0, this]
+          simp
+        empty := by
+          intro a ha
+          exact inv.empty a (by simp) }
+    | cons e P' =>
+      have he : g.entry = some e := by rw [inv.entry]; rfl
+      simp only [he]
+      have hsel := selectNeighbors_complete mt st m efc g e P' inv x v hx hlen
+      generalize selectNeighbors mt st g x v = nids at hsel
+      have hnidsnd : nids.Nodup := hsel.nodup_iff.mpr inv.nodup
+      have hxn : x ∉ nids := fun h => hx (hsel.mem_iff.mp h)
+      -- the graph after linking
+      have hg1len : (g.setNbrs x nids).nbrs.length = g.nbrs.length := setNbrs_len _ _ _
+      have hfold := foldl_backlink mt st x nids (g.setNbrs x nids) hnidsnd
+        (by
+          intro n hn
+          rw [hg1len, inv.len]
+          exact vecAt_lt (inv.vec n (hsel.mem_iff.mp hn)))
+        (by
+          intro n hn
+          have hne : n ≠ x := fun h => hxn (h ▸ hn)
+          rw [nbrsOf_setNbrs_ne _ _ _ _ hne]
+          have hp := inv.adj n (hsel.mem_iff.mp hn)
+          cases hc : (g.nbrsOf n).contains x with
+          | false => rfl
+          | true =>
+            have : x ∈ g.nbrsOf n := by simpa using hc
+            exact absurd (List.mem_of_mem_erase (hp.mem_iff.mp this)) hx)
+      obtain ⟨f1, f2, f3, f4, f5⟩ := hfold
+      have hlink : GInv st m efc (linkNew mt st g x nids) ((e :: P') ++ [x]) := by
+        unfold linkNew
+        exact {
+          len := by rw [f1, hg1len, inv.len]
+          hm := by rw [f2]; exact inv.hm
+          hefc := by rw [f3]; exact inv.hefc
+          entry := by rw [foldl_backlink_entry, setNbrs_entry, he]; rfl
+          nodup := by
+            rw [List.nodup_append]
+            refine ⟨inv.nodup, by simp, ?_⟩
+            intro a ha b hb
+            simp only [List.mem_singleton] at hb
+            subst hb
+            intro h; subst h; exact hx ha
+          vec := by
+            intro a ha
+            rcases List.mem_append.mp ha with ha | ha
+            · exact inv.vec a ha
+            · simp only [List.mem_singleton] at ha; subst ha; exact hv
+          adj := by
+            intro a ha
+            rcases List.mem_append.mp ha with ha | ha
+            · -- an old node: its list gained the new node
+              have han : a ∈ nids := hsel.mem_iff.mpr ha
+              have hne : a ≠ x := fun h => hx (h ▸ ha)
+              rw [f5 a han, erase_append_of_mem x ha, nbrsOf_setNbrs_ne _ _ _ _ hne]
+              have hp := inv.adj a ha
+              have hl : (g.nbrsOf a ++ [x]).length ≤ (g.setNbrs x nids).m := by
+                rw [setNbrs_m, inv.hm, List.length_append, hp.length_eq, List.length_erase_of_mem ha]
+                simp only [List.length_singleton]
+                have : 0 < (e :: P').length := by simp
+                omega
+              exact (pruneList_perm mt st _ a _ hl).trans (List.Perm.append_right _ hp)
+            · simp only [List.mem_singleton] at ha
+              subst ha
+              rw [f4 a hxn, nbrsOf_setNbrs_self _ _ _ hxlt, erase_append_of_not_mem a hx]
+              exact hsel
+          empty := by
+            intro a ha
+            simp only [List.mem_append, List.mem_singleton, not_or] at ha
+            have han : a ∉ nids := fun h => ha.1 (hsel.mem_iff.mp h)
+            rw [f4 a han, nbrsOf_setNbrs_ne _ _ _ _ ha.2]
+            exact inv.empty a ha.1 }
+      -- the entry point already has neighbours: the last block does nothing
+      have hne : ((linkNew mt st g x nids).nbrsOf e).isEmpty = false := by
+        have hp := hlink.adj e (by simp)
+        have hxin : x ∈ ((e :: P') ++ [x]).erase e := by
+          have hxe : x ≠ e := fun h => hx (by simp [h])
+          rw [List.mem_erase_of_ne hxe]
+          simp
+        have := hp.mem_iff.mpr hxin
+        cases hl : (linkNew mt st g x nids).nbrsOf e with
+        | nil => simp [hl] at this
+        | cons a b => rfl
+      unfold fixEntry
+      simp only [hne, Bool.false_and, Bool.false_eq_true, if_false]
+      exact hlink
+
+/-- ids of the documents that have a vector, in doc-id order -/
+def presentIds (st : Store S) : List Nat :=
+  (List.range st.length).filter (fun i => (vecAt st i).isSome)
+
+theorem foldl_addVector_inv (mt : Metric) (st : Store S) (m efc : Nat) :
+    ∀ (ids : List Nat) (g : Graph) (P : List Nat), GInv st m efc g P → ids.Nodup →
+      (∀ i ∈ ids, i ∉ P) → (P ++ ids.filter (fun i => (vecAt st i).isSome)).length ≤ m + 1 →
+      GInv st m efc (ids.foldl (addVector mt st) g) (P ++ ids.filter (fun i => (vecAt st i).isSome)) := by
+  intro ids
+  induction ids with
+  | nil => intro g P inv _ _ _; simpa using inv
+  | cons i rest ih =>
+    intro g P inv hnd hdis hlen
+    rw [List.nodup_cons] at hnd
+    simp only [List.foldl_cons]
+    cases hv : (vecAt st i).isSome with
+    | false =>
+      have hg : addVector mt st g i = g := by
+        unfold addVector
+        cases hvi : vecAt st i with
+        | none => rfl
+        | some v => simp [hvi] at hv
+      rw [hg]
+      simp only [List.filter_cons, hv, Bool.false_eq_true, if_false] at hlen ⊢
+      exact ih g P inv hnd.2 (fun j hj => hdis j (by simp [hj])) hlen
+    | true =>
+      simp only [List.filter_cons, hv, if_true] at hlen ⊢
+      have hlenP : P.length ≤ m := by
+        simp only [List.length_append, List.length_cons] at hlen
+        omega
+      have inv' := addVector_inv mt st m efc g P inv i (hdis i (by simp)) hv hlenP
+      have := ih (addVector mt st g i) (P ++ [i]) inv' hnd.2
+        (by
+          intro j hj
+          simp only [List.mem_append, List.mem_singleton, not_or]
+          refine ⟨hdis j (by simp [hj]), ?_⟩
+          intro h; subst h; exact hnd.1 hj)
+        (by simpa [List.append_assoc] using hlen)
+      simpa [List.append_assoc] using this
+
+/-- **the built graph is complete** when the segment holds at most `max m 1 + 1` vectors -/
+theorem buildGraph_inv (mt : Metric) (st : Store S) (m efc : Nat)
+    (h : (presentIds st).length ≤ max m 1 + 1) :
+    GInv st (max m 1) (max efc 1) (buildGraph mt st m efc) (presentIds st) := by
+  unfold buildGraph
+  have := foldl_addVector_inv mt st (max m 1) (max efc 1) (List.range st.length)
+    (Graph.new st.length m efc) [] (GInv.new st m efc) List.nodup_range (by simp)
+    (by simpa [presentIds] using h)
+  simpa [presentIds] using this
 
 /-! ## candidates of a clause -/
 
